@@ -120,6 +120,13 @@ def make_scenario(mode: str, nworkers: int, second_write: bool):
     if mode in ("local", "local-cold"):
         w = DelayedS3Writer(MultiPartUpload("bkt", "key.tif"), {"ContentType": "image/tiff"})
         writers = [w] * nworkers
+    elif mode.startswith("cluster-shared"):
+        # a dask client exists, but the workers are threads of one process that were handed the very same writer object (distributed passes objects to in-process
+        # workers without copying them; so does the threaded scheduler run next to a client): the cluster-coordinated path with shared mutable state
+        w = DelayedS3Writer(MultiPartUpload("bkt", "key.tif"), {"ContentType": "image/tiff"})
+        writers = [w] * nworkers
+        if mode == "cluster-shared-prepared":
+            w.prep_client(FakeClient())
     else:
         writers = [DelayedS3Writer(MultiPartUpload("bkt", "key.tif"), {"ContentType": "image/tiff"}) for _ in range(nworkers)]
         if mode == "cluster-prepared":
@@ -227,7 +234,7 @@ def explore(mon: Monitor, mode: str, n: int, second: bool, bound: int, cap: int)
 
 def random_walks(mon: Monitor, rng: random.Random, count: int) -> None:
     for _ in range(count):
-        mode = rng.choice(["local", "local-cold", "cluster-prepared", "cluster-unprepared"])
+        mode = rng.choice(["local", "local-cold", "cluster-prepared", "cluster-unprepared", "cluster-shared-prepared", "cluster-shared-unprepared"])
         n = rng.choice([2, 3, 3])
         second = rng.random() < 0.3
         r = random.Random(rng.getrandbits(48))
@@ -386,10 +393,11 @@ def run(mon: Monitor, tier: str, seed: int, shard: int, nshards: int) -> None:
     sched.watch(watch_codes())
     try:
         plans = [("local", 2, False, 2, 3000), ("local-cold", 2, False, 2, 2500), ("cluster-prepared", 2, False, 2, 2000), ("cluster-unprepared", 2, False, 2, 2000), ("local", 3, False, 1, 1500), ("cluster-prepared", 3, False, 1, 1200),
-                 ("local", 2, True, 1, 600)]
+                 ("local", 2, True, 1, 600), ("cluster-shared-prepared", 2, False, 2, 2000), ("cluster-shared-unprepared", 2, False, 2, 2000)]
         if not q:
             plans = [("local", 2, False, 3, 60000), ("local-cold", 2, False, 3, 60000), ("local-cold", 3, False, 2, 60000), ("cluster-prepared", 2, False, 3, 60000), ("cluster-unprepared", 2, False, 3, 60000), ("local", 3, False, 2, 60000), ("cluster-prepared", 3, False, 2, 60000),
-                     ("cluster-unprepared", 3, False, 2, 60000), ("local", 2, True, 2, 20000), ("cluster-prepared", 2, True, 2, 20000)]
+                     ("cluster-unprepared", 3, False, 2, 60000), ("local", 2, True, 2, 20000), ("cluster-prepared", 2, True, 2, 20000),
+                     ("cluster-shared-prepared", 2, False, 3, 60000), ("cluster-shared-unprepared", 2, False, 3, 60000), ("cluster-shared-unprepared", 3, False, 2, 60000), ("cluster-shared-prepared", 2, True, 2, 20000)]
         for k, (mode, n, second, bound, cap) in enumerate(plans):
             if nshards > 1 and k % nshards != shard:
                 continue
@@ -423,7 +431,8 @@ def run(mon: Monitor, tier: str, seed: int, shard: int, nshards: int) -> None:
         real_cluster(mon, rng, 30)
     floors = [("schedule", 1500 if q else 3000), ("filesink", 200), ("limits", 30), ("filesink|default|empty-part", 5), ("filesink|relocated", 20), ("filesink|default|existing-destination", 5), ("limits|MPUFileSink", 25)]
     if q or nshards == 1:
-        floors += [("schedule|local|n=2|dfs", 200), ("schedule|cluster-prepared|n=2|dfs", 200), ("schedule|cluster-unprepared|n=2|dfs", 200), ("schedule|local|n=3|dfs", 200), ("schedule|local-cold|n=2|dfs", 200), ("real-cluster", 2)]
+        floors += [("schedule|local|n=2|dfs", 200), ("schedule|cluster-prepared|n=2|dfs", 200), ("schedule|cluster-unprepared|n=2|dfs", 200), ("schedule|local|n=3|dfs", 200), ("schedule|local-cold|n=2|dfs", 200), ("real-cluster", 2),
+                   ("schedule|cluster-shared-prepared|n=2|dfs", 200), ("schedule|cluster-shared-unprepared|n=2|dfs", 200)]
     for pt, n in floors:
         mon.floor(pt, n)
 
